@@ -47,6 +47,7 @@ Variables (nseq maxuid : Z).
 Variable mb : list smsg.
 Variables (i : Z) (sm : smsg).
 Hypothesis Hin : In (i, sm) (numbered mb).
+Hypothesis Hmb : mb_ok mb = true.
 Notation m := (to_msg (i, sm)).
 Notation SP := (spec_eval nseq maxuid).
 
@@ -57,13 +58,13 @@ Definition rec_ok (rec : list str -> option bool) : Prop :=
 Lemma rec_ok_loop rec : rec_ok (eval_loop go_text rec m).
 Proof.
   intros k W C. rewrite <- (app_nil_r (key_tokens k)).
-  rewrite (simple_step rec nseq maxuid mb i sm Hin k [] W C). cbn [eval_loop]. now rewrite andk_some, andb_true_r.
+  rewrite (simple_step rec nseq maxuid mb i sm Hin Hmb k [] W C). cbn [eval_loop]. now rewrite andk_some, andb_true_r.
 Qed.
 
 Lemma key_step rec k rest : rec_ok rec -> wf_key k = true -> key_class k mb = None ->
   eval_loop go_text rec m (key_tokens k ++ rest) = andk (SP k i sm) (eval_loop go_text rec m rest).
 Proof.
-  intros R W C. destruct k; try (apply (simple_step rec nseq maxuid mb i sm Hin); assumption).
+  intros R W C. destruct k; try (apply (simple_step rec nseq maxuid mb i sm Hin Hmb); assumption).
   - (* NOT *) cbn [key_class] in C. apply operand_inv in C as [A C]. cbn [wf_key] in W.
     cbn [key_tokens]. rewrite <- app_comm_cons. rewrite el_not by (eapply key_shape; eassumption).
     rewrite (R k W C). cbn [spec_eval]. destruct (SP k i sm); reflexivity.
